@@ -102,7 +102,8 @@ def gen_cells(ctx):
     with open(cells, "w") as o:
         for fam in FAMILIES:
             path, k, gen, dist, wall = res[fam]
-            o.write(open(path).read())
+            # TLC's workers emit in a run-dependent order: sort, so that (seed -> sampled cells) is reproducible
+            o.writelines(sorted(open(path).read().splitlines(True)))
             n += k
             ctx.cov["states"] += dist
             ctx.cov["transitions"] += gen
@@ -146,7 +147,9 @@ def run(ctx):
         raise V.Machinery("no document loaded at all: the driver cannot observe any resolved configuration")
     lines, total = validate(ctx, obs, "cf")
     # vacuity: how often each rule family had something to decide (counted on the abstract inputs by the driver summary and here)
-    ante = {"loaded": 0, "malformed_expected_err": 0, "cluster_opts_over_default_opts": 0, "extra_route": 0, "tpl": 0, "other_cluster": 0, "prod": 0}
+    ante = {"loaded": 0, "malformed_expected_err": 0, "cluster_opts_over_default_opts": 0, "extra_route": 0, "tpl": 0, "other_cluster": 0, "prod": 0,
+            "uncompilable_skip_pattern": 0, "unknown_type": 0, "uncompilable_from": 0, "missing_from_or_to": 0, "no_service_name": 0,
+            "extra_list_in_cluster_block": 0, "several_services_in_document": 0, "not_first_in_document": 0, "deployment_default_applies": 0}
     nontrivial = set()
     for ln in lines:
         r = json.loads(ln)
@@ -165,6 +168,25 @@ def run(ctx):
             ante["other_cluster"] += 1
         if r["path"] == "prod":
             ante["prod"] += 1
+        blocks = [sv[b] for b in ("def", "clu", "xtr") if sv[b]["present"]]
+        if any(b["badskip"] for b in blocks):
+            ante["uncompilable_skip_pattern"] += 1
+        if any(b["type"] == "bogus" for b in blocks):
+            ante["unknown_type"] += 1
+        if any(b["from"] == "badre" for b in blocks):
+            ante["uncompilable_from"] += 1
+        if blocks and not any(b["from"] != "-" for b in blocks[:2] if b is not sv["xtr"]) or blocks and not any(b["to"] != "-" for b in blocks):
+            ante["missing_from_or_to"] += 1
+        if sv["name"] in ("blank", "missing"):
+            ante["no_service_name"] += 1
+        if sv["xin"] in ("clu", "both"):
+            ante["extra_list_in_cluster_block"] += 1
+        if r["n"] > 1:
+            ante["several_services_in_document"] += 1
+        if r["pos"] > 0:
+            ante["not_first_in_document"] += 1
+        if not r["out"]["err"] and any("env" in v for u in r["out"]["ups"] for v in u["o"].values()):
+            ante["deployment_default_applies"] += 1
         nontrivial.add(json.dumps([sv, r["env"], r["path"]], sort_keys=True))
     for k, v in ante.items():
         if v == 0:
